@@ -16,7 +16,7 @@ From J5V.lib Require Import Outcome Strcase.
 From J5V.model Require Import Entity EntityClient.
 From J5V.gen Require EntityGen.
 From J5V.proofs Require Import StrcaseProofs EntityProofs EntityGenProofs EntityReadmeProofs EntityClientProofs
-  EntitySpec EntitySpecProofs.
+  EntitySpec EntitySpecProofs EntityAcceptProofs.
 Import ListNotations.
 Local Open Scope N_scope.
 
@@ -78,14 +78,34 @@ Theorem C17_optional_repeated_refuted :
 Proof. exact optional_repeated_refuted. Qed.
 Print Assumptions C17_optional_repeated_refuted.
 
-(* PARTIAL: what holds.  For EVERY declaration the model compiles (in the quantifier or not)
-   the output satisfies the core specification; for declarations in the quantifier the path
-   parameters of Get and Events are exactly the primary and shard keys in declaration order
-   and Events = Get + "/events" (no clean-path hypothesis: path.Join's cleaning is part of the
-   proof); and when no key uses a property name of State / Event ([reserved_free]) these are
-   objects.  MISSING for the full statement: acceptance, i.e.
-   in_quantifier e -> reserved_free e -> exists cs, compile e = Ok cs
-   (on every run checked by the correspondence in both directions, not proved). *)
+(* an entity named Page (or Events, with eventsInGet): the entity's own property in the List (Get)
+   response has the name of the page (events) property next to it *)
+Theorem C17_entity_named_page_refuted :
+  in_quantifier page_entity = true /\ compile page_entity = Err "symbol already defined".
+Proof. exact entity_named_page_refuted. Qed.
+Print Assumptions C17_entity_named_page_refuted.
+
+(* PARTIAL (1): THE FULL STATEMENT HOLDS FOR EVERY DECLARATION WITHOUT RESERVED NAMES.
+   [reserved_free e]: no primary/shard key named page or query, no key named metadata / data /
+   status / event, no summary field named upsert, no event or oneof option named type, the entity
+   not named page (nor events when eventsInGet is set) - exactly the names the expansion itself
+   puts next to the user's.  Such a declaration in the quantifier is ACCEPTED (parser validation,
+   walker, conversion, link step) and its output satisfies every clause of the specification. *)
+Theorem C17_full_modulo_reserved : forall e, in_quantifier e = true -> reserved_free e = true ->
+  exists cs, compile e = Ok cs /\ C17_spec e cs.
+Proof. exact full_modulo_reserved. Qed.
+Print Assumptions C17_full_modulo_reserved.
+
+Theorem C17_acceptance : forall e, in_quantifier e = true -> reserved_free e = true -> exists cs, compile e = Ok cs.
+Proof. exact acceptance. Qed.
+Print Assumptions C17_acceptance.
+
+(* PARTIAL (2): for EVERY declaration the model compiles (in the quantifier or not, reserved
+   names or not) the output satisfies the core specification; for declarations in the
+   quantifier the path parameters of Get and Events are exactly the primary and shard keys in
+   declaration order and Events = Get + "/events" (no clean-path hypothesis: path.Join's
+   cleaning is part of the proof); State / Event are objects when no key uses one of their
+   property names. *)
 Theorem C17_full_partial : forall e cs, compile e = Ok cs ->
   C17_spec_core e cs
   /\ (in_quantifier e = true -> spec_query_paths e cs)
